@@ -13,6 +13,9 @@ import (
 
 func init() {
 	register(&Property{ID: "C06", Run: runC06, Mutants: []Mutant{
+		{Name: "import filter trusts the name lookup instead of the import kind", File: "internal/wat/watutil/watstrip/remove_unused.go", Old: "\t\tif importSpec.ObjKind == token.FUNC {\n\t\t\tif fnObj := p.funcs[importSpec.FuncName]; fnObj.color == white {\n\t\t\t\tcontinue // skip\n\t\t\t}\n\t\t}", New: "\t\tif fnObj, ok := p.funcs[importSpec.FuncName]; ok && fnObj.color == white {\n\t\t\tcontinue // skip\n\t\t}", Expect: "drop #1 is for function imports only"},
+		{Name: "first exported function ends the root scan", File: "internal/wat/watutil/watstrip/remove_unused.go", Old: "\t\t\t\tif exp.Name != \"\" && fn.Name == exp.FuncIdx {\n\t\t\t\t\tp.markFuncReachable(p.funcs[fn.Name])\n\t\t\t\t\tcontinue Loop", New: "\t\t\t\tif exp.Name != \"\" && fn.Name == exp.FuncIdx {\n\t\t\t\t\tp.markFuncReachable(p.funcs[fn.Name])\n\t\t\t\t\tbreak Loop", Expect: "loop over the module's functions runs to the end"},
+		{Name: "roots looked up directly, first hit of an element segment ends the segment", File: "internal/wat/watutil/watstrip/remove_unused.go", Old: "Loop:\n\tfor _, fn := range p.m.Funcs {\n\t\t// start\n\t\tif fn.Name != \"\" && fn.Name == p.m.Start {\n\t\t\tp.markFuncReachable(p.funcs[fn.Name])\n\t\t\tcontinue\n\t\t}\n\n\t\t// table elem\n\n\t\tfor _, elem := range p.m.Elem {\n\t\t\tfor _, elemValue := range elem.Values {\n\t\t\t\tif fn.Name != \"\" && fn.Name == elemValue {\n\t\t\t\t\tp.markFuncReachable(p.funcs[fn.Name])\n\t\t\t\t\tcontinue Loop\n\t\t\t\t}\n\t\t\t}\n\t\t}\n\n\t\t// export\n\t\tfor _, exp := range p.m.Exports {\n\t\t\tif exp.Kind == token.FUNC {\n\t\t\t\tif exp.Name != \"\" && fn.Name == exp.FuncIdx {\n\t\t\t\t\tp.markFuncReachable(p.funcs[fn.Name])\n\t\t\t\t\tcontinue Loop\n\t\t\t\t}\n\t\t\t}\n\t\t}\n\t}\n\n", New: "\t// start\n\tif p.m.Start != \"\" {\n\t\tif fn, ok := p.funcs[p.m.Start]; ok {\n\t\t\tp.markFuncReachable(fn)\n\t\t}\n\t}\n\n\t// table elem\nLoop:\n\tfor _, elem := range p.m.Elem {\n\t\tfor _, elemValue := range elem.Values {\n\t\t\tif fn, ok := p.funcs[elemValue]; ok && fn.color == white {\n\t\t\t\tp.markFuncReachable(fn)\n\t\t\t\tcontinue Loop\n\t\t\t}\n\t\t}\n\t}\n\n\t// export\n\tfor _, exp := range p.m.Exports {\n\t\tif exp.Kind == token.FUNC && exp.Name != \"\" {\n\t\t\tif fn, ok := p.funcs[exp.FuncIdx]; ok && fn.color == white {\n\t\t\t\tp.markFuncReachable(fn)\n\t\t\t}\n\t\t}\n\t}\n\n", Expect: "every root is visited"},
 		{Name: "printer swallows every export that targets an inline-exported function", File: "internal/wat/printer/printer_export.go", Old: "if fn.Name == e.FuncIdx && fn.ExportName == e.Name {", New: "if fn.ExportName != \"\" && fn.Name == e.FuncIdx {", Expect: "roots-survive-printing :: printExport: skip only the function's own inline export"},
 		{Name: "strip ignores the start function root", File: "internal/wat/watutil/watstrip/remove_unused.go", Old: "if fn.Name != \"\" && fn.Name == p.m.Start {", New: "if fn.Name != \"\" && fn.Name == p.m.Name {", Expect: "root-completeness :: Module.Start"},
 		{Name: "strip does not recurse into else bodies", File: "internal/wat/watutil/watstrip/remove_unused.go", Old: "\t\tfor _, x := range ins.Else {\n\t\t\tp.markFuncReachable_ins(x)\n\t\t}\n", New: "", Expect: "edge-completeness :: Ins_If.Else"},
@@ -103,8 +106,13 @@ func runC06(c *Ctx) {
 				c.Undecided(rRoot, root, "", "the assembler no longer resolves this field in the function index space")
 				continue
 			}
-			c.Check(rootMarked(info, dp, root), rRoot, root, p.Pos(dp.Pos()), "compared with the function name under an if that marks the function reachable",
+			looked, skips := rootLookedUp(info, p, dp, root)
+			c.Check(rootMarked(info, dp, root) || looked, rRoot, root, p.Pos(dp.Pos()), "compared with the function name under an if that marks the function reachable, or looked up in the function table and marked",
 				fmt.Sprintf("DoPass never marks functions referenced by %s as reachable: such functions are stripped although they are roots", root))
+			c.Check(len(skips) == 0, rRoot, root+": every root is visited", p.Pos(dp.Pos()), "no jump leaves a loop over the roots after a mark", strings.Join(skips, "; "))
+		}
+		if nm, early := funcLoopLeftEarly(info, p, dp); nm > 0 {
+			c.Check(len(early) == 0, rRoot, "loop over the module's functions runs to the end", p.Pos(dp.Pos()), "no return or break out of it after a mark", strings.Join(early, "; "))
 		}
 		// export roots must be restricted to kind FUNC only by an `== token.FUNC` test (not narrower)
 		okKind := false
@@ -244,13 +252,51 @@ func runC06(c *Ctx) {
 			var testIf *ast.IfStmt
 			ast.Inspect(rs.Body, func(m ast.Node) bool {
 				if ifs, ok := m.(*ast.IfStmt); ok {
-					if be, ok := ifs.Cond.(*ast.BinaryExpr); ok && strings.HasSuffix(types.ExprString(be.X), ".color") {
-						test, testIf = be, ifs
+					for _, cj := range conjuncts(ifs.Cond) {
+						if be, ok := cj.(*ast.BinaryExpr); ok && strings.HasSuffix(types.ExprString(be.X), ".color") {
+							test, testIf = be, ifs
+						}
 					}
 				}
 				return true
 			})
 			construct := "rebuild of " + over
+			if over == "p.m.Imports" {
+				// every drop of an import is under a test that the import is a function: the colour map is keyed by
+				// function name, and the FuncName of a memory/global/table import is "" — the key of an unnamed function
+				var walk func(list []ast.Stmt, conds []ast.Expr)
+				nDrop := 0
+				walk = func(list []ast.Stmt, conds []ast.Expr) {
+					for _, s := range list {
+						switch x := s.(type) {
+						case *ast.BlockStmt:
+							walk(x.List, conds)
+						case *ast.IfStmt:
+							walk(x.Body.List, append(conds[:len(conds):len(conds)], conjuncts(x.Cond)...))
+							if eb, ok := x.Else.(*ast.BlockStmt); ok {
+								walk(eb.List, conds)
+							} else if ei, ok := x.Else.(*ast.IfStmt); ok {
+								walk([]ast.Stmt{ei}, conds)
+							}
+						case *ast.BranchStmt:
+							if x.Tok != token.CONTINUE {
+								continue
+							}
+							nDrop++
+							kindOK := false
+							for _, cj := range conds {
+								if be, ok := cj.(*ast.BinaryExpr); ok && be.Op == token.EQL && strings.HasSuffix(types.ExprString(be.X), ".ObjKind") && constOfExpr(info, be.Y).Name == "FUNC" {
+									kindOK = true
+								}
+							}
+							c.Check(kindOK, rFilt, fmt.Sprintf("%s: drop #%d is for function imports only", construct, nDrop), p.Pos(x.Pos()), "dropped only when ObjKind == FUNC",
+								"the rebuild loop over p.m.Imports drops an import without testing that it is a function import: the colour table is keyed by function name, a memory, global or table import has the empty FuncName, which is the key of any unnamed function — with one unnamed unreachable function in the module every non-function import is removed and the stripped module no longer validates")
+						}
+					}
+				}
+				walk(rs.Body.List, nil)
+				c.Min(rFilt, "import drops", nDrop, 1)
+			}
 			if test == nil {
 				c.Undecided(rFilt, construct, p.Pos(rs.Pos()), "no colour test found in the rebuild loop")
 				return true
@@ -489,4 +535,13 @@ func selField(info *types.Info, e ast.Expr) string {
 		return ""
 	}
 	return namedTypeName(sel.Recv()) + "." + se.Sel.Name
+}
+
+// conjuncts splits a condition at its top-level && operators.
+func conjuncts(e ast.Expr) []ast.Expr {
+	e = ast.Unparen(e)
+	if be, ok := e.(*ast.BinaryExpr); ok && be.Op == token.LAND {
+		return append(conjuncts(be.X), conjuncts(be.Y)...)
+	}
+	return []ast.Expr{e}
 }
